@@ -711,6 +711,16 @@ class _AliasFields(ast.NodeTransformer):
         a = node.args
         params = {x.arg for x in a.posonlyargs + a.args + a.kwonlyargs} | ({a.vararg.arg} if a.vararg else set()) \
             | ({a.kwarg.arg} if a.kwarg else set())
+        if not params:
+            return node
+        for _round in range(4):                     # `pool = self.pool; q = pool._queue`: one alias may stand on another
+            if not self._one_pass(node, params):
+                break
+        return node
+
+    visit_AsyncFunctionDef = visit_FunctionDef
+
+    def _one_pass(self, node, params) -> bool:
         stores: dict = {}
         declared = set()
         own_attr_stores = set()
@@ -721,37 +731,65 @@ class _AliasFields(ast.NodeTransformer):
                 declared |= set(n.names)
             elif isinstance(n, ast.Attribute) and isinstance(n.ctx, (ast.Store, ast.Del)):
                 own_attr_stores.add(n.attr)
-        if not params:
-            return node
-        cands = {}
-        for i, st in enumerate(node.body):
-            # only top-level statements of the function: the alias is then defined on every later path
-            if isinstance(st, ast.Assign) and len(st.targets) == 1 and isinstance(st.targets[0], ast.Name):
-                nm = st.targets[0].id
-                path = []
-                e = st.value
-                while isinstance(e, ast.Attribute):
-                    path.append(e.attr)
-                    e = e.value
-                if path and isinstance(e, ast.Name) and e.id in params and stores.get(e.id, 0) == 0 \
-                        and stores.get(nm) == 1 and nm not in params and nm not in declared \
-                        and not any(x in REBOUND_ATTRS or x in own_attr_stores for x in path):
-                    cands[nm] = (i, st)
-        if not cands:
-            return node
-        for nm, (i, st) in cands.items():
-            # every read of the alias must come after its definition: reads are confined to the statements after it
-            early = any(isinstance(n, ast.Name) and n.id == nm for s_ in node.body[:i] for n in ast.walk(s_))
-            if early:
-                continue
-            sub = _SubstName(nm, st.value)
-            for j in range(i + 1, len(node.body)):
-                node.body[j] = sub.visit(node.body[j])
-            node.body[i] = ast.copy_location(ast.Pass(), st)
-        node.body = [s_ for s_ in node.body if not isinstance(s_, ast.Pass)] or [ast.copy_location(ast.Pass(), node)]
-        return node
 
-    visit_AsyncFunctionDef = visit_FunctionDef
+        def stable(e) -> bool:
+            path = []
+            while isinstance(e, ast.Attribute):
+                path.append(e.attr)
+                e = e.value
+            return bool(path) and isinstance(e, ast.Name) and e.id in params and stores.get(e.id, 0) == 0 \
+                and not any(x in REBOUND_ATTRS or x in own_attr_stores for x in path)
+
+        def ok_name(nm) -> bool:
+            return stores.get(nm) == 1 and nm not in params and nm not in declared
+        changed = False
+
+        def block(stmts):
+            nonlocal changed
+            # a, b = P, Q  with plain stable paths on the right: two aliases
+            out = []
+            for st in stmts:
+                if isinstance(st, ast.Assign) and len(st.targets) == 1 and isinstance(st.targets[0], ast.Tuple) \
+                        and isinstance(st.value, ast.Tuple) and len(st.targets[0].elts) == len(st.value.elts) \
+                        and all(isinstance(t, ast.Name) and ok_name(t.id) for t in st.targets[0].elts) \
+                        and all(stable(v) for v in st.value.elts):
+                    for t, v in zip(st.targets[0].elts, st.value.elts):
+                        out.append(ast.copy_location(ast.Assign(targets=[t], value=v), st))
+                    changed = True
+                else:
+                    out.append(st)
+            stmts[:] = out
+            i = 0
+            while i < len(stmts):
+                st = stmts[i]
+                if isinstance(st, ast.Assign) and len(st.targets) == 1 and isinstance(st.targets[0], ast.Name) \
+                        and ok_name(st.targets[0].id) and stable(st.value):
+                    nm = st.targets[0].id
+                    # every read of the alias lies in the statements that follow the definition in this block
+                    n_after = sum(1 for s_ in stmts[i + 1:] for n in ast.walk(s_) if isinstance(n, ast.Name) and n.id == nm)
+                    n_all = sum(1 for n in ast.walk(node) if isinstance(n, ast.Name) and n.id == nm)
+                    if n_after == n_all - 1:
+                        sub = _SubstName(nm, st.value)
+                        for j in range(i + 1, len(stmts)):
+                            stmts[j] = sub.visit(stmts[j])
+                        del stmts[i]
+                        changed = True
+                        continue
+                i += 1
+            if not stmts:
+                stmts.append(ast.copy_location(ast.Pass(), node))
+            for st in stmts:
+                if isinstance(st, (ast.FunctionDef, ast.AsyncFunctionDef, ast.ClassDef)):
+                    continue
+                for fld in ("body", "orelse", "finalbody"):
+                    v = getattr(st, fld, None)
+                    if isinstance(v, list) and v and isinstance(v[0], ast.stmt):
+                        block(v)
+                if isinstance(st, ast.Try):
+                    for h in st.handlers:
+                        block(h.body)
+        block(node.body)
+        return changed
 
 
 class _SubstName(ast.NodeTransformer):
